@@ -67,6 +67,7 @@ type Sim struct {
 	progOf         map[string]string // deployed contract address -> program name
 	ties           bool              // tie-prone flavour: stake amounts from a small set
 	bigGas bool // mainnet-scale gas price: some gas limits make gas x price exceed 64 bits
+	scriptKeep *TxSpec // a scripted transaction kept for a later block of the same scenario
 	scriptMiss     [][]byte          // validators a script reports as not having signed the previous block
 }
 
@@ -105,17 +106,23 @@ func newSimWith(seed int64, scratch string, profile string, nvals, nusers int, t
 	if nvals > 0 {
 		nv, nu = nvals, nusers
 	}
+	// flavours are chosen by shard number + index within the shard (history seeds are shard*100000 + index),
+	// so that the few histories of a quick run fall into consecutive residue classes
+	fl := seed
+	if seed >= 100000 {
+		fl = seed/100000 + seed%100000
+	}
 	g := Genesis{ChainID: fmt.Sprintf("verif-chain-%d", seed%7), Params: pickParams(rng)}
-	if seed%5 == 2 && nvals == 0 {
+	if fl%5 == 2 && nvals == 0 {
 		// flavour: a reward per power beyond 64 bits (the parameter is a 256-bit number; rewards are too)
 		g.Params.RewardPerPower = new(big.Int).Add(new(big.Int).Lsh(big.NewInt(1), uint(62+rng.Intn(5))), big.NewInt(int64(rng.Intn(1000)))).String()
 	}
-	if seed%11 == 4 && nvals == 0 {
+	if fl%11 == 4 && nvals == 0 {
 		// flavour: a chain without fees (gas price 0 is a legal parameter value): nobody's balance moves
 		// when a transaction only pays for gas, so nonces are the only trace a sender leaves
 		g.Params.GasPrice = "0"
 	}
-	if seed%7 == 3 && nvals == 0 {
+	if fl%7 == 3 && nvals == 0 {
 		// flavour: the gas price of the public network (250 Gfons) and its minimum gas; with gas limits of
 		// 10^8 and more the fee gas x price no longer fits 64 bits (it is a 256-bit amount everywhere)
 		g.Params.GasPrice, g.Params.MinTrxGas = "250000000000", 4000
@@ -130,7 +137,7 @@ func newSimWith(seed int64, scratch string, profile string, nvals, nusers int, t
 		s.vals = append(s.vals, k)
 		keys[k.Name] = k
 		pw := int64(10 + rng.Intn(90))
-		if seed%4 == 1 && nvals == 0 { // tie-prone flavour: equal powers, so the ranking's tie-breakers decide
+		if fl%4 == 1 && nvals == 0 { // tie-prone flavour: equal powers, so the ranking's tie-breakers decide
 			pw = 15
 			s.ties = true
 		}
